@@ -950,3 +950,14 @@ Definition run_iter_ops (inp : list Z) : list Z :=
   | Some ops => let '(s, obs) := i_run i_init ops in flat_map out_obs obs ++ [-9] ++ out_msgs (p_q (i_p s))
   | None => bad_input
   end.
+
+(* ---- C02: from_bytes on arbitrary items ---- *)
+Definition run_dec_items (inp : list Z) : list Z :=
+  match inp with
+  | n :: r => if n <? 0 then bad_input else
+              match in_atoms (Z.to_nat n) r with
+              | Some (items, []) => out_res out_msg (dec_items items)
+              | _ => bad_input
+              end
+  | [] => bad_input
+  end.
